@@ -325,3 +325,43 @@ harness! { fn c07_chain_default_loop_n16() unwind 70 { chain_default_loop::<Rec1
 harness! { fn c07_chain_default_loop_n16_tail() unwind 70 { chain_default_loop::<Rec16>(253, 2) }}
 harness! { fn c07_chain_default_loop_n16_empty() unwind 70 { chain_default_loop::<Rec16>(7, 0) }}
 harness! { fn c07_chain_default_loop_n32() unwind 70 { chain_default_loop::<Rec32>(0, 2) }}
+
+// ---- cheap observation of the two fixed-layout pre-images of LM-OTS signing / verification ----------
+// (first query = message digest Q, last query = public key candidate Kc); digests havoc, chains one
+// havoc step. The digit-driven chain positions are NOT observed here (see DESIGN.md 8.3, C01).
+fn ots_ends<H: HashChain, const YLEN: usize>(w: LmotsAlgorithm, p: usize) {
+    let n = H::OUTPUT_SIZE as usize;
+    let i: [u8; 16] = kani::any();
+    let leaf: u32 = kani::any();
+    let par = w.construct_parameter::<H>().unwrap();
+    let mut key: ArrayVec<[ArrayVec<[u8; 32]>; hbs_lms::verif_hooks::constants::MAX_NUM_WINTERNITZ_CHAINS]> = ArrayVec::new();
+    let mut k = 0;
+    while k < p { let d: [u8; 32] = kani::any(); key.push(ArrayVec::from_array_len(d, n)); k += 1; }
+    let sk = hbs_lms::verif_hooks::lmots_definitions::LmotsPrivateKey::<H>::new(i, leaf.to_be_bytes(), key, par);
+    let cb: [u8; 32] = kani::any();
+    let c: ArrayVec<[u8; 32]> = ArrayVec::from_array_len(cb, n);
+    let msg: [u8; 5] = kani::any();
+    let mlen: usize = kani::any();
+    kani::assume(mlen <= 5);
+    rec_ends_reset();
+    let sig = LmotsSignature::sign(&sk, &c, &msg[..mlen]);
+    let (cnt, chains, m) = unsafe { (REC_ENDS.count, REC_ENDS.chains, REC_ENDS.first) };
+    assert!(cnt == 1 && chains == p, "signing: one message digest and p chains");
+    assert!(m.len == 22 + n + mlen, "Q pre-image length 22 + n + |message|");
+    assert!(eq(&m.head[..16], &i) && eq(&m.head[16..20], &leaf.to_be_bytes()) && m.head[20] == 0x81 && m.head[21] == 0x81, "I | q | D_MESG");
+    assert!(eq(&m.head[22..22 + n], &cb[..n]) && eq(&m.head[22 + n..22 + n + mlen], &msg[..mlen]), "then the randomizer C, then the message");
+    assert!(eq(sig.signature_randomizer.as_slice(), &cb[..n]) && sig.signature_data.len() == p, "signature carries C and p chain values");
+    // verifier side
+    let flat: [u8; YLEN] = kani::any();
+    let parsed = InMemoryLmotsSignature::<H> { signature_randomizer: &cb[..n], signature_data: &flat[..n * p], lmots_parameter: par };
+    rec_ends_reset();
+    let _cand = generate_public_key_candidate(&parsed, &i, leaf, &msg[..mlen]);
+    let (cnt, chains, m2, f) = unsafe { (REC_ENDS.count, REC_ENDS.chains, REC_ENDS.first, REC_ENDS.last) };
+    assert!(cnt == 2 && chains == p, "verification: message digest, p chains, candidate digest");
+    assert!(m2.len == 22 + n + mlen && eq(&m2.head[..22 + n + mlen], &m.head[..22 + n + mlen]), "the verifier hashes the same Q pre-image as the signer");
+    assert!(f.len == 22 + p * n, "Kc pre-image length 22 + p n");
+    assert!(eq(&f.head[..16], &i) && eq(&f.head[16..20], &leaf.to_be_bytes()) && f.head[20] == 0x80 && f.head[21] == 0x80, "I | q | D_PBLC");
+    kani::cover!(mlen == 5, "longest message");
+}
+harness! { fn c07_ots_preimage_ends_n16_w8() unwind 70 { ots_ends::<RecEnds16, { 16 * 18 }>(LmotsAlgorithm::LmotsW8, 18) }}
+harness! { fn c07_ots_preimage_ends_n32_w8() unwind 70 { ots_ends::<RecEnds32, { 32 * 34 }>(LmotsAlgorithm::LmotsW8, 34) }}
